@@ -46,6 +46,10 @@ def label_index(labels: List[Any], lab: Any) -> Optional[int]:
 
 
 def ego_xy(o: Any, transforms: Any) -> Optional[np.ndarray]:
+    from perception_eval.common.object import DynamicObject
+
+    if not isinstance(o, DynamicObject):
+        return None  # 2D objects carry no position: no range criterion applies
     b = O.box_of(o)
     fr = O.frame_of(o)
     if fr == "base_link":
@@ -196,17 +200,18 @@ def judge(ctx: Ctx, fr: Any, before_results: List[Any], before_gt: List[Any]) ->
     for k, v in buckets.items():
         if v:
             ctx.count(f"C03.bucket.{k}", v)
-    rng_kind = "xy" if params.get("max_x_position_list") is not None else "ring"
+    rng_kind = "xy" if params.get("max_x_position_list") is not None else "ring" if params.get("max_distance_list") is not None else "none"
     sig = ("frame", frame_id, str(cfg.evaluation_task), rng_kind, tuple(k for k, v in buckets.items() if v), len(results) < len(before_results), len(crit_gt) < len(before_gt))
     ctx.case(sig, nontrivial=bool(results) and bool(crit_gt), sample=dict(info, buckets=buckets) if ctx.counters["C03.frames_checked"] <= 3 else None)
 
 
 def run(ctx: Ctx) -> None:
-    from ..frames import run_direct_frames
+    from ..frames import run_direct_frames, run_direct_frames_2d
     from ..scenario import run_manager_scenarios
 
     with Taps(ctx) as taps:
         install(taps, ctx)
         run_manager_scenarios(ctx, "scenario", 120 if ctx.quick else 6000)
         run_direct_frames(ctx, "direct_frames", 300 if ctx.quick else 20000)
+        run_direct_frames_2d(ctx, "direct_frames_2d", 150 if ctx.quick else 8000)
         ctx.notes["taps"] = taps.installed
